@@ -32,6 +32,7 @@ from .execution import (
     check_abort_no_retry,
     check_breaker,
     classify_for_breaker,
+    ensure_settled,
     make_attempt_context,
     record_cancel,
     record_failure,
@@ -121,6 +122,8 @@ class AsyncPolicy:
         except Exception as exc:
             self._handle_exception_call(ctx, exc, on_attempt_end)
             raise
+        finally:
+            ensure_settled(ctx)
 
     async def _call_without_retry(
         self,
@@ -230,25 +233,28 @@ class AsyncPolicy:
             if not decision.allowed:
                 return build_circuit_open_outcome(ctx, decision.state.value)
 
-        # Delegate to retry if configured
-        if self.retry is not None:
-            return await self._execute_with_retry(
-                ctx,
-                func,
-                on_metric,
-                on_log,
-                operation,
-                abort_if,
-                sleep,
-                before_sleep,
-                sleeper,
-                on_attempt_start,
-                on_attempt_end,
-                capture_timeline,
-            )
+        try:
+            # Delegate to retry if configured
+            if self.retry is not None:
+                return await self._execute_with_retry(
+                    ctx,
+                    func,
+                    on_metric,
+                    on_log,
+                    operation,
+                    abort_if,
+                    sleep,
+                    before_sleep,
+                    sleeper,
+                    on_attempt_start,
+                    on_attempt_end,
+                    capture_timeline,
+                )
 
-        # No retry - single attempt
-        return await self._execute_without_retry(ctx, func, on_attempt_start, on_attempt_end)
+            # No retry - single attempt
+            return await self._execute_without_retry(ctx, func, on_attempt_start, on_attempt_end)
+        finally:
+            ensure_settled(ctx)
 
     async def _execute_with_retry(
         self,
@@ -268,19 +274,32 @@ class AsyncPolicy:
         """Execute with retry and record result with breaker."""
         retry = self.retry
         assert retry is not None
-        outcome = await retry.execute(
-            func,
-            on_metric=on_metric,
-            on_log=on_log,
-            operation=operation,
-            abort_if=abort_if,
-            sleep=sleep,
-            before_sleep=before_sleep,
-            sleeper=sleeper,
-            on_attempt_start=on_attempt_start,
-            on_attempt_end=on_attempt_end,
-            capture_timeline=capture_timeline,
-        )
+        try:
+            outcome = await retry.execute(
+                func,
+                on_metric=on_metric,
+                on_log=on_log,
+                operation=operation,
+                abort_if=abort_if,
+                sleep=sleep,
+                before_sleep=before_sleep,
+                sleeper=sleeper,
+                on_attempt_start=on_attempt_start,
+                on_attempt_end=on_attempt_end,
+                capture_timeline=capture_timeline,
+            )
+        except asyncio.CancelledError:
+            record_cancel(ctx)
+            raise
+        except (KeyboardInterrupt, SystemExit):
+            record_cancel(ctx)
+            raise
+        except RetryExhaustedError as exc:
+            self._handle_exhausted_call(ctx, exc)
+            raise
+        except Exception as exc:
+            self._handle_exception_call(ctx, exc, on_attempt_end)
+            raise
 
         # Record with circuit breaker
         if ctx.breaker is not None:
